@@ -52,6 +52,35 @@ theorem grace_le_G (cfg : Cfg) (s : State) (t : Task) : grace cfg s t ≤ G cfg 
   unfold grace G
   cases t <;> simp only <;> split <;> omega
 
+theorem InvD.now_eq_root {cfg : Cfg} {s : State} (hI : InvD cfg s) {t : Nat} {r : Root}
+    (ht : s.t0 = some t) (hp : stoppingPhase s) (hr : r ≠ .startupCleanup) (hst : s.st (.root r) = .running) :
+    s.now = t := by
+  have := hI.a t ht hp r hr (by simp [hst])
+  simp [hst] at this
+  exact this.2
+
+theorem InvD.now_eq_sub {cfg : Cfg} {s : State} (hB : InvB s) (hI : InvD cfg s) {t : Nat} {i : Nat}
+    (ht : s.t0 = some t) (hp : stoppingPhase s) (hi : i < s.nSubs) (hst : s.st (.sub i) = .running) :
+    s.now = t := by
+  have ho := hB.subOrch i hi (by simp [hst])
+  cases hos : s.st (.root .orchestrator) with
+  | running => exact hI.now_eq_root ht hp (by decide) hos
+  | stopping f dl =>
+    have := hI.c t ht hp (by simp [hos]) i hi (by simp [hst])
+    simp [hst] at this
+    exact this.2
+  | _ => simp [hos] at ho
+
+theorem stoppingPhase_of_live {s : State} (hC : InvC s) (hn : s.rt ≠ .waiting)
+    (hl : (s.st (.root .startupCleanup)).ended = false) : stoppingPhase s := by
+  unfold stoppingPhase
+  by_cases h1 : s.rt = .stoppingRoots
+  · exact Or.inl h1
+  by_cases h2 : s.rt = .cStoppingRoots
+  · exact Or.inr h2
+  have := hC.hungRoots hn h1 h2 .startupCleanup
+  simp [this] at hl
+
 set_option maxHeartbeats 8000000 in
 theorem InvD.preserved_nodelay {cfg : Cfg} {s s' : State} {l : Label} (hB : InvB s) (hC : InvC s)
     (hI : InvD cfg s) (hl : ∀ n, l ≠ .delay n) (h : step cfg s l = some s') : InvD cfg s' := by
@@ -64,6 +93,13 @@ theorem InvD.preserved_nodelay {cfg : Cfg} {s s' : State} {l : Label} (hB : InvB
   have hc9 := hC.waitingEarly
   have hc10 := hC.t0Some
   have hgr := grace_le_G cfg s
+  have hL1 : ∀ t r, s.t0 = some t → stoppingPhase s → r ≠ .startupCleanup → s.st (.root r) = .running → s.now = t :=
+    fun t r ht hp hr hst => hI.now_eq_root ht hp hr hst
+  have hL2 : ∀ t i, s.t0 = some t → stoppingPhase s → i < s.nSubs → s.st (.sub i) = .running → s.now = t :=
+    fun t i ht hp hi hst => hI.now_eq_sub hB ht hp hi hst
+  have hL3 : s.rt ≠ .waiting → (s.st (.root .startupCleanup)).ended = false → stoppingPhase s :=
+    fun hn hl => stoppingPhase_of_live hC hn hl
+  have hc11 := hC.scOver
   obtain ⟨h0, h1, h2, h3, h4, h5, h6, h7, h8, h9, h10, h11, h12, h13, h14⟩ := hI
   cases l <;> simp only [step] at h
   case delay n => exact absurd rfl (hl n)
